@@ -376,6 +376,7 @@ def runSection (r : Report) (sec : Section) : Report := Id.run do
         if kvNat l.obs "distinct" 99 ≠ 1 then
           r := r.violation sec.idx l.idx s!"single-loader: concurrent readers received different results op=[{joinSp l.op}] impl=[{impl}]"
       for t in coverOf c s res.1 op res.2 do r := r.addCover t
+      if l.op.contains "w=1" && res.2.res = .notfound && res.2.q ≥ 1 then r := r.addCover "notfound-error-wrapped"
       if model ≠ impl then r := r.mismatch sec.idx l.idx model impl
       match parseObs (if conc then concObs l.obs else l.obs) with
       | none => r := r.violation sec.idx l.idx s!"unreadable observation [{impl}] op=[{joinSp l.op}]"
